@@ -428,6 +428,36 @@ def run_shard(desc, ctx):
                 rb = core.call(emmet.expand, ab, {'type': typ, 'syntax': plain})
                 if ra[0] != rb[0] or (ra[0] == 'ok' and ra[1] != rb[1]):
                     ctx.violation('unknown-syntax', {'type': typ, 'syntax': unk, 'abbr': ab}, {'note': 'expand differs from type default syntax', 'unknown': repr(ra[1])[:120], 'default': repr(rb[1])[:120]})
+        # a layer is in force for the calls that carry it and leaves no trace for the others: keys that NEST under built-in ones (a property whose
+        # name extends a built-in property's, an alias used by built-in definitions) are defined in each of the three caller layers in turn, used,
+        # and then a set of plain calls - typed keywords, fuzzy keys, aliases of aliases - must give what it gave before any layer was seen
+        LEAK_PROBES = {'stylesheet': ['ov:an', 'td:fr', 'trs:al', 'ov', 'pos:s', 'bd1-s', 'm:a', 'p10', 'ovw', 'fw:b', 'td:n', 'ov:h', 'trs', 'c#f', 'posx'],
+                       'markup': ['ul>li', 'a', '!', 'item', 'doc>p', 'ol+', 'btn:s', 'x-a>vv', 'link:css']}
+        LEAK_LAYERS = {'stylesheet': {'ovw': 'overflow-wrap:anywhere|break-word|normal', 'tdx': 'text-decoration-x:frob|nicate', 'trsx': 'transition-x:alpha|beta',
+                                      'posx': 'position-x:sieve|riddle', 'ov': 'overflow:auto|clip'},
+                       'markup': {'item': 'li.item', 'meta:utf': 'meta[charset=koi8]', 'doc': 'html>body', 'vv': 'x-v.w', 'btn': 'button.b', 'link': 'link[rel=x]'}}
+        for typ, syns in (('stylesheet', ['css', 'scss', 'sass', 'less', 'stylus']), ('markup', ['html', 'xml', 'pug', 'xsl', 'jsx'])):
+            plain = {sy: [core.call(emmet.expand, ab, {'type': typ, 'syntax': sy}) for ab in LEAK_PROBES[typ]] for sy in syns}
+            for where in ('call', 'global-type', 'global-syntax'):
+                for sy in syns:
+                    u, g = {'type': typ, 'syntax': sy}, {}
+                    if where == 'call':
+                        u['snippets'] = dict(LEAK_LAYERS[typ])
+                    elif where == 'global-type':
+                        g = {typ: {'snippets': dict(LEAK_LAYERS[typ])}}
+                    else:
+                        g = {sy: {'snippets': dict(LEAK_LAYERS[typ])}}
+                    for key in list(LEAK_LAYERS[typ]) + LEAK_PROBES[typ]:
+                        core.call(emmet.expand, key, u, g)
+                    for sy2 in syns:
+                        ctx.ev('layer-leaves-no-trace')
+                        ctx.mon('oracle:layer-leaves-no-trace')
+                        now = [core.call(emmet.expand, ab, {'type': typ, 'syntax': sy2}) for ab in LEAK_PROBES[typ]]
+                        bad = [(ab, repr(a[1])[:80], repr(b[1])[:80]) for ab, a, b in zip(LEAK_PROBES[typ], plain[sy2], now) if a[0] != b[0] or (a[0] == 'ok' and a[1] != b[1])]
+                        if bad:
+                            ctx.violation('layer-left-a-trace', {'type': typ, 'layer': where, 'layer_syntax': sy, 'probe_syntax': sy2, 'leak': True},
+                                          {'abbreviation, before, after': bad[:4]})
+                            plain[sy2] = now
     else:
         typ, syn = desc['type'], desc['syntax']
         for kind, key, vals in KEYS[typ]:
